@@ -20,21 +20,21 @@ import (
 
 // DagItem is a work item of the DAG engine.
 type DagItem struct {
-	Source   string   `json:"src"`  // "harvest:<scenario>" | "enum:<n>:<max>:<c0>,<c1>…" (prefix of generation choices)
+	Source   string      `json:"src"` // "harvest:<scenario>" | "enum:<n>:<max>:<c0>,<c1>…" (prefix of generation choices)
 	Devs     []sched.Dev `json:"devs,omitempty"`
-	Variants []string `json:"var"`
-	Level    int      `json:"lvl"` // 0 quick, 1 thorough
-	Static   bool     `json:"static"`
+	Variants []string    `json:"var"`
+	Level    int         `json:"lvl"` // 0 quick, 1 thorough
+	Static   bool        `json:"static"`
 }
 
 type DagResult struct {
-	Dags       int            `json:"dags"`
-	Runs       int            `json:"runs"`
-	Inserts    int            `json:"inserts"`
-	Viol       []ev.Violation `json:"viol,omitempty"`
-	Counters   map[string]int `json:"ctr"`
-	Sample     []string       `json:"sample,omitempty"`
-	Outcomes   []string       `json:"outs,omitempty"` // distinct reference outcomes (digest)
+	Dags     int            `json:"dags"`
+	Runs     int            `json:"runs"`
+	Inserts  int            `json:"inserts"`
+	Viol     []ev.Violation `json:"viol,omitempty"`
+	Counters map[string]int `json:"ctr"`
+	Sample   []string       `json:"sample,omitempty"`
+	Outcomes []string       `json:"outs,omitempty"` // distinct reference outcomes (digest)
 }
 
 func scratchDir() string {
@@ -749,7 +749,7 @@ func init() {
 				}
 				var res DagResult
 				json.Unmarshal(r.Res, &res)
-			attachItem(res.Viol, "dag", raw[r.Index])
+				attachItem(res.Viol, "dag", raw[r.Index])
 				tot.Dags += res.Dags
 				tot.Runs += res.Runs
 				tot.Inserts += res.Inserts
